@@ -128,6 +128,7 @@ class ScriptedBroker(AsyncBroker):
         self.next = 0
         self._wake: "Optional[asyncio.Future[Any]]" = None
         self.kicked: List[Any] = []
+        self.fail_next = False
 
     async def kick(self, message: Any) -> None:
         self.kicked.append(message)
@@ -135,9 +136,15 @@ class ScriptedBroker(AsyncBroker):
 
     async def listen(self) -> Any:  # type: ignore[override]
         while True:
-            while self.next >= min(self.arrived, len(self.msgs)):
+            if self.fail_next:
+                self.fail_next = False
+                self.env.rec("stream_error")
+                raise ConnectionError("broker connection lost")
+            while self.next >= min(self.arrived, len(self.msgs)) and not self.fail_next:
                 self._wake = self.env.loop.create_future()
                 await self._wake
+            if self.fail_next:
+                continue
             i = self.next
             self.next += 1
             self.env.rec("take", m=i + 1)
@@ -178,18 +185,18 @@ class RecordingBackend(AsyncResultBackend[Any]):
         flags = 0
         if result.is_err:
             flags |= 1
-        if tid in env.returned and result.return_value == env.returned[tid] and not result.is_err:
+        if m in env.returned and result.return_value == env.returned[m] and not result.is_err:
             flags |= 2
-        if {k_: v_ for k_, v_ in result.labels.items() if k_ != "_gen"} == env.msg_labels.get(tid):
+        if {k_: v_ for k_, v_ in result.labels.items() if k_ != "_gen"} == env.msg_labels.get(m):
             flags |= 4
-        if err is not None and (env.raised.get(tid) is err or cls in ("timeout", "depfail")):
+        if err is not None and (env.raised.get(m) is err or cls in ("timeout", "depfail")):
             flags |= 8
         if err is not None and result.return_value is None:
             flags |= 16
         env.rec("save_b", m=m, x=tid, y=flags, s=cls)
-        mc = env.cfg["msgs"][tid - 1] if 0 < tid <= len(env.cfg["msgs"]) else {}
+        mc = env.cfg["msgs"][m - 1] if 0 < m <= len(env.cfg["msgs"]) else {}
         if env.cfg.get("bsusp"):
-            await env.gate(("save", tid, 0))
+            await env.gate(("save", m, 0))
         if mc.get("savefail"):
             env.rec("save_e", m=m, x=tid, s="fail")
             raise ResultSetError
@@ -238,6 +245,15 @@ def make_middleware(env: Env, idx: int, spec: Dict[str, Any]) -> TaskiqMiddlewar
                 body_begin(message)
                 return finish(message)
             return sync_hook
+
+        if mode == "future":
+            def future_hook(self: Any, message: Any, *a: Any) -> Any:
+                # a plain function returning an awaitable that is not a coroutine
+                async def later() -> Any:
+                    body_begin(message)
+                    return finish(message)
+                return asyncio.ensure_future(later())
+            return future_hook
 
         async def async_hook(self: Any, message: Any, *a: Any) -> Any:
             m = body_begin(message)
@@ -340,6 +356,9 @@ def make_tasks(env: Env, broker: ScriptedBroker, cfg: Dict[str, Any]) -> None:
             try:
                 outcome = await fut
             except asyncio.CancelledError:
+                if mc.get("slowcancel"):
+                    await asyncio.sleep(0)      # cleanup that needs the loop while being cancelled
+                    await asyncio.sleep(0)
                 env.rec("end", m=m, x=i, s="cancel")
                 raise
         return finish_body(i, m, outcome)
@@ -415,7 +434,7 @@ def build_messages(env: Env, broker: ScriptedBroker, cfg: Dict[str, Any]) -> Non
                 labels["timeout"] = mc["timeout"] / 10.0
             name = "no_such_task" if kind == "unknown" else mc.get("task", "ta0")
             tm = TaskiqMessage(
-                task_id=f"m{idx}", task_name=name, labels=labels, labels_types=None,
+                task_id=f"m{mc.get('tid') or idx}", task_name=name, labels=labels, labels_types=None,
                 args=[idx], kwargs={},
             )
             env.msg_labels[idx] = dict(labels)
@@ -485,37 +504,50 @@ def run(scn: Dict[str, Any]) -> List[Dict[str, Any]]:
         index_of = {}
         for i, msg in enumerate(broker.msgs, start=1):
             index_of[id(msg)] = i
-        receiver = Receiver(
-            broker,
-            executor=InlineExecutor(),
-            validate_params=True,
-            max_async_tasks=cfg.get("A") or None,  # 0 = unlimited
-            max_prefetch=cfg.get("P", 0),
-            propagate_exceptions=cfg.get("propagate", True),
-            ack_type=ACK[cfg.get("ack", "default")],
-            max_tasks_to_execute=cfg.get("N") or None,
-            wait_tasks_timeout=(cfg["W"] / 10.0) if cfg.get("W", -1) >= 0 else None,
-        )
-        orig_cb = receiver.callback
 
-        async def cb(message: Any, raise_err: bool = False) -> None:
-            m = index_of.get(id(message), 0)
-            CUR_M.set(m)
-            env.rec("cb_b", m=m)
-            try:
-                await orig_cb(message=message, raise_err=raise_err)
-            except BaseException as exc:  # noqa: BLE001
-                env.rec("cb_e", m=m, s="raised")
-                raise
-            else:
-                env.rec("cb_e", m=m, s="ok")
+        class ObservedReceiver(Receiver):
+            """Records begin/end of the processing of each message (public callback API)."""
 
-        receiver.callback = cb  # type: ignore[method-assign]
+            async def callback(self, message: Any, raise_err: bool = False) -> None:  # type: ignore[override]
+                m = index_of.get(id(message), 0)
+                CUR_M.set(m)
+                env.rec("cb_b", m=m)
+                try:
+                    await Receiver.callback(self, message=message, raise_err=raise_err)
+                except BaseException:  # noqa: BLE001
+                    env.rec("cb_e", m=m, s="raised")
+                    raise
+                else:
+                    env.rec("cb_e", m=m, s="ok")
+
         finish = asyncio.Event()
+        if cfg.get("via") == "api":
+            # the programmatic entry point taskiq.api.run_receiver_task builds the Receiver from its own arguments
+            from taskiq.api import run_receiver_task
 
-        async def main() -> None:
-            await receiver.listen(finish)
-            env.rec("ret")
+            async def main() -> None:
+                await run_receiver_task(
+                    broker, receiver_cls=ObservedReceiver, validate_params=True, max_async_tasks=cfg.get("A", 0),
+                    max_prefetch=cfg.get("P", 0), propagate_exceptions=cfg.get("propagate", True), run_startup=True,
+                    ack_time=ACK[cfg.get("ack", "default")],
+                )
+                env.rec("ret")
+        else:
+            receiver = ObservedReceiver(
+                broker,
+                executor=InlineExecutor(),
+                validate_params=True,
+                max_async_tasks=cfg.get("A") or None,  # 0 = unlimited
+                max_prefetch=cfg.get("P", 0),
+                propagate_exceptions=cfg.get("propagate", True),
+                ack_type=ACK[cfg.get("ack", "default")],
+                max_tasks_to_execute=cfg.get("N") or None,
+                wait_tasks_timeout=(cfg["W"] / 10.0) if cfg.get("W", -1) >= 0 else None,
+            )
+
+            async def main() -> None:
+                await receiver.listen(finish)
+                env.rec("ret")
 
         task = loop.create_task(main())
         loop.settle()
@@ -601,6 +633,11 @@ def run(scn: Dict[str, Any]) -> List[Dict[str, Any]]:
                 target = loop.time() + step[1] / 10.0
                 while _adv(env, loop, target):
                     pass
+            elif op == "stream_error":
+                broker.fail_next = True
+                if broker._wake is not None and not broker._wake.done():
+                    broker._wake.set_result(None)
+                loop.settle()
             elif op == "settle":
                 loop.settle()
             elif op == "step":
